@@ -39,7 +39,15 @@ type psFunc struct {
 	obj  *types.Func
 }
 
-func panicSites(repo string) (string, error) {
+type psWorld struct {
+	funcs map[*types.Func]*psFunc
+	reach map[*types.Func]bool
+	own   map[string]bool
+	unrec []string
+}
+
+// psLoad loads the traffic packages and computes the functions statically reachable from the roots
+func psLoad(repo string) (*psWorld, error) {
 	cfg := &packages.Config{
 		Mode: packages.NeedName | packages.NeedFiles | packages.NeedSyntax | packages.NeedTypes |
 			packages.NeedTypesInfo | packages.NeedImports | packages.NeedDeps,
@@ -48,7 +56,7 @@ func panicSites(repo string) (string, error) {
 	}
 	pkgs, err := packages.Load(cfg, "./openapi3", "./openapi3filter", "./routers", "./routers/legacy", "./routers/legacy/pathpattern", "./routers/gorillamux")
 	if err != nil {
-		return "", err
+		return nil, err
 	}
 	var unrec []string
 	funcs := map[*types.Func]*psFunc{}
@@ -81,17 +89,26 @@ func panicSites(repo string) (string, error) {
 		}
 	}
 	// ---- reachability
+	// roots: the whole exported surface of the traffic packages (both routers with pathpattern, openapi3filter) —
+	// every exported function and every exported method of an exported type, plus openapi3filter's init (the body
+	// decoders are registered there and reached through the registry map). The check's own test hooks (Verif…,
+	// build tag verif) are not part of the library.
 	isRoot := func(f *psFunc) bool {
 		p := f.pkg.PkgPath
 		n := f.decl.Name.Name
-		switch {
-		case strings.HasSuffix(p, "routers/legacy") || strings.HasSuffix(p, "routers/gorillamux"):
-			return n == "NewRouter" || n == "FindRoute"
-		case strings.HasSuffix(p, "openapi3filter"):
-			// init: the body decoders are registered there and reached through the registry map
-			return n == "ValidateRequest" || n == "ValidateResponse" || n == "ConvertErrors" || n == "Encode" || n == "Middleware" || n == "init"
+		if strings.HasSuffix(p, "/openapi3") || strings.HasSuffix(p, "/routers") {
+			return false
 		}
-		return false
+		if n == "init" {
+			return strings.HasSuffix(p, "openapi3filter")
+		}
+		if !ast.IsExported(n) || strings.HasPrefix(n, "Verif") {
+			return false
+		}
+		if f.decl.Recv != nil && len(f.decl.Recv.List) > 0 && !ast.IsExported(psRecvName(f.decl.Recv.List[0].Type)) {
+			return false
+		}
+		return true
 	}
 	// the document gate itself (Validate methods, the loader) is not traffic: C04/C20 own it
 	cut := func(o *types.Func) bool {
@@ -99,7 +116,14 @@ func panicSites(repo string) (string, error) {
 			return false
 		}
 		n := o.Name()
-		return n == "Validate" || strings.HasPrefix(n, "validate") && n != "validateExtensions" && false
+		if n == "Validate" || n == "NewLoader" {
+			return true
+		}
+		// the loader (reached from ValidationHandler.Load, set-up time) is C20's
+		if sig, ok := o.Type().(*types.Signature); ok && sig.Recv() != nil && ownerName(sig.Recv().Type()) == "Loader" {
+			return true
+		}
+		return false
 	}
 	reach := map[*types.Func]bool{}
 	var work []*types.Func
@@ -141,6 +165,15 @@ func panicSites(repo string) (string, error) {
 			return true
 		})
 	}
+	return &psWorld{funcs: funcs, reach: reach, own: own, unrec: unrec}, nil
+}
+
+func panicSites(repo string) (string, error) {
+	w, err := psLoad(repo)
+	if err != nil {
+		return "", err
+	}
+	funcs, reach, own, unrec := w.funcs, w.reach, w.own, w.unrec
 	// ---- sites
 	groups := map[psKey][]string{}
 	apiInput := map[string]bool{"RequestValidationInput": true, "ResponseValidationInput": true, "AuthenticationInput": true,
@@ -233,6 +266,10 @@ func panicSites(repo string) (string, error) {
 						return "y"
 					}
 				case *ast.SwitchStmt:
+					// `switch len(x) { case 1: x[0] }` / `switch { … }`: the tag dominates every clause
+					if e.Tag != nil && stack[i+1] != e.Tag && hit(text(e.Tag)) {
+						return "y"
+					}
 				case *ast.CaseClause:
 					for _, ce := range e.List {
 						if hit(text(ce)) {
@@ -462,6 +499,26 @@ func panicSites(repo string) (string, error) {
 	total := 0
 	fmt.Fprintf(&sb, "-- rows: %d\n", n)
 	fmt.Fprintf(&sb, "-- reachable functions: %d\n", len(reach))
+	// transparency: the exported API of the traffic packages that the roots do NOT reach (registration, options,
+	// accessors); a function that moves into this list silently loses its rows
+	var notReached []string
+	for o, f := range funcs {
+		p := f.pkg.PkgPath
+		if reach[o] || !ast.IsExported(f.decl.Name.Name) || strings.HasSuffix(p, "/openapi3") {
+			continue
+		}
+		n := f.decl.Name.Name
+		if f.decl.Recv != nil && len(f.decl.Recv.List) > 0 {
+			rn := psRecvName(f.decl.Recv.List[0].Type)
+			if !ast.IsExported(rn) {
+				continue
+			}
+			n = rn + "." + n
+		}
+		notReached = append(notReached, p[strings.LastIndex(p, "/")+1:]+"."+n)
+	}
+	sort.Strings(notReached)
+	fmt.Fprintf(&sb, "-- exported functions of openapi3filter/routers not reachable from the roots (%d): %s\n", len(notReached), strings.Join(notReached, " "))
 	sb.WriteString("def panicSites : List Row := [\n")
 	first := true
 	sep := func() {
